@@ -890,6 +890,12 @@ func gen(r *vlib.R, n int, tier string, emit func(string)) {
 		for j, m := 0, 2+r.Intn(3); j < m; j++ {
 			peers = append(peers, genAddr(r, pool))
 		}
+		// peers a reverse proxy would have: loopback and private sources, whose
+		// forwarding headers a server might be tempted to believe
+		priv := []string{"4:7f000001", "4:0a010203", "4:c0a80207", "4:ac100505", "6:fd000000000000000000000000000001", "6:00000000000000000000000000000001", "m:c0a80207"}
+		for j := 0; j < 3; j++ {
+			peers = append(peers, vlib.Pick(r, priv))
+		}
 		emit(fmt.Sprintf("live run %s %s %s", l, strings.Join(peers, ","), vlib.Pick(r, []string{"-", "xff", "xri", "fwd"})))
 	}
 	for n > 0 {
